@@ -194,3 +194,13 @@ Example C12_nonvacuous :
      [TallyEntry 0 2 2; DataIs 0 1]]%N /\
   strictly_accepted (judge minit sinit (snd (run init ops))) = true.
 Proof. vm_compute. split; reflexivity. Qed.
+
+(* A call into the stack that never returns (observation [Stuck], produced only by the watchdog of
+   the runner, never by the model) is rejected by the monitor whatever the operation: a verdict
+   whose ApproveOrDenyWrite blocks for ever leaves its write — and every write whose verdicts
+   queue behind it — without outcome. *)
+Example C12_stuck_call_rejected :
+  map fst (judge minit sinit [(AddCb, []); (Arrive 0 1 true 0, [Presented 0 0 1]);
+                              (Lookup 0 1 0 true, [Parked]); (Commit 0 1 0, [Stuck 3])]) =
+  [[]; []; []; [CL_STUCK; CL_SHAPE]].
+Proof. vm_compute. reflexivity. Qed.
